@@ -230,13 +230,17 @@ pub fn panic_msg(e: Box<dyn std::any::Any + Send>) -> String {
     }
 }
 
+/// Shifts the rotation of API variants (write_bytes / write_bytes_vec, write_string / write_faststr, ...) so that a
+/// caller can run the same value through each of them.
+pub static MODE_OFFSET: std::sync::atomic::AtomicUsize = std::sync::atomic::AtomicUsize::new(0);
+
 fn run_w<P: TOutputProtocol + WProbe>(p: &mut P, trees: &[Tree], log: bool, with_len: bool, out: &mut EncOut) {
     let mut c = if log { Ctx::logging() } else { Ctx::default() };
     if let Some(l) = c.log.as_mut() {
         l.push(json!({"op":"init","st":p.cstate()}));
     }
     for (i, t) in trees.iter().enumerate() {
-        c.mode = i; // deterministic API-variant rotation per value
+        c.mode = i + MODE_OFFSET.load(std::sync::atomic::Ordering::SeqCst); // deterministic API-variant rotation per value
         if with_len {
             let m = c.mode;
             let n = len_tree(p, t, &mut c);
